@@ -1,5 +1,6 @@
 """property -> rules table."""
 from .rules import spec as R_spec
+from .rules import c17 as R_c17
 
 Q = ("quick", "thorough")
 T = ("thorough",)
@@ -20,5 +21,23 @@ PROPS = {
         technique="static table lint: independent format-language interpreter + spec/signature cross-check over the AST",
         trusted_base=["vstat.ispecmodel (format interpreter written from the ispec docstring)", "crysp Bits prints LSB first (used by the /digit macro)"],
         assumptions=["decorator format strings are literals or the three loop-generated dwarf families (anything else is listed as undecided)"],
+    ),
+    "C17": dict(
+        title="Decoding and executing any bytes never crashes, and instructions are well formed",
+        explanation=(
+            "Decides the crash classes that are visible without running, in everything reachable (name-resolved call graph) "
+            "from the 25 disassembler instances: all spec setup functions and preconditions, all i_XXX semantics of every "
+            "cpu module's uarch, the functions named in the Formatter tables, icore.__call__, ispec.decode, "
+            "CoreExec.read_instruction, lsweep.sequence, emul.stepi: (1) unresolved names (NameError), (2) reads of "
+            "amoco-module attributes that the module does not bind (AttributeError), (3) name-mangled private attributes "
+            "read but never stored, (4) spec/setup-function keyword mismatches (TypeError on every matching word). "
+            "Does NOT decide totality over all byte strings (type errors, KeyError on computed keys, arithmetic on wrong kinds)."
+        ),
+        rules=[(R_c17.r_import_c17, Q), (R_c17.r_name_c17, Q), (R_c17.r_modattr_c17, Q), (R_c17.r_priv_c17, Q), (R_spec.r_sig, Q), (R_spec.r_dupfmt, T)],
+        level_text="partial: static scope/signature analysis over every function reachable from decode, format and execute entry points of all ISAs (~3000+ functions); each report is a definite NameError/AttributeError/TypeError for every input that reaches the line; the tests decode ~150 words and execute a handful of semantics",
+        level_note="Trusted: CPython ast; by-name callee resolution (no type inference), so attribute typos on non-module objects and implicit exceptions (IndexError/KeyError/TypeError on values) are out of reach. Unresolvable namespaces and deliberate bare-name crash markers are listed as undecided, not alarmed.",
+        technique="static scope resolution + call-graph reachability + spec/signature cross-check over the AST",
+        trusted_base=["vstat.scopes (flow-insensitive LEGB resolver)", "vstat.callgraph (by-name reachability)"],
+        assumptions=["star-import closure is computed over amoco modules only; all star-imports in arch/, cas/, system/ target amoco modules"],
     ),
 }
